@@ -1,0 +1,18 @@
+//go:build verif
+
+package driver
+
+import (
+	"encoding/base64"
+
+	rspb "helm.sh/helm/v4/pkg/release/v1"
+)
+
+// VerifEncodeRelease exposes encodeRelease to the verification harness (C10).
+func VerifEncodeRelease(rls *rspb.Release) (string, error) { return encodeRelease(rls) }
+
+// VerifDecodeRelease exposes decodeRelease to the verification harness (C10).
+func VerifDecodeRelease(data string) (*rspb.Release, error) { return decodeRelease(data) }
+
+// VerifB64 is the base64 encoding the record codec uses.
+func VerifB64() *base64.Encoding { return b64 }
